@@ -4,6 +4,7 @@ package c14
 import (
 	"crypto/rand"
 	"crypto/tls"
+	"crypto/x509"
 	"encoding/base64"
 	"errors"
 	"fmt"
@@ -77,7 +78,8 @@ func (e *env) judge(t vkit.TB, class string, detail func() any, expectConn bool)
 		}
 	}
 	if len(e.rig.Final) > 0 {
-		return !vkit.Violate(t, prop, "C14/listener-stopped/"+class, fmt.Sprintf("the accept loop ended after a remote input: %v", e.rig.Final[0].Err), detail())
+		// the rig's accept loop behaves like a gRPC server: it stops on a non-temporary error
+		return !vkit.Violate(t, prop, "C14/non-temporary-error/"+class, fmt.Sprintf("a failure caused by the remote peer was reported as a NON-temporary error, which stops accept loops that follow the documented contract: %v", e.rig.Final[0].Err), detail())
 	}
 	// the honest node still connects
 	conn, err := e.rig.Dial(e.node)
@@ -196,7 +198,7 @@ func TestProp_HostileInputs(t *testing.T) {
 			e = newEnv(t)
 		}
 		e.used++
-		kind := rapid.SampledFrom([]string{"alpn-list", "alpn-list", "alpn-list", "mutated-request", "hostile-rewrapped-blob", "raw-bytes", "oversized-request"}).Draw(t, "inputKind")
+		kind := rapid.SampledFrom([]string{"alpn-list", "alpn-list", "alpn-list", "mutated-request", "hostile-rewrapped-blob", "raw-bytes", "oversized-request", "client-alert", "tcp-reset"}).Draw(t, "inputKind")
 		switch kind {
 		case "alpn-list":
 			n := rapid.IntRange(1, 8).Draw(t, "entries")
@@ -281,6 +283,42 @@ func TestProp_HostileInputs(t *testing.T) {
 			}
 			rec.Case("raw-bytes", string(b), false, func() any { return map[string]any{"bytes_hex": fmt.Sprintf("%x", b)} })
 			e.judge(t, "raw-bytes", func() any { return map[string]any{"bytes_hex": fmt.Sprintf("%x", b)} }, false)
+		case "client-alert":
+			// a peer that aborts the handshake itself: it verifies the server certificate
+			// against an empty pool and sends a bad_certificate alert (honest ALPN or base-TLS)
+			creds, _ := types.LoadNodeCredentials(e.w.Ctx, e.node.Store, nodeenrollment.CurrentId)
+			cfgs, cerr := nodetls.ClientConfigs(e.w.Ctx, creds)
+			if cerr != nil || len(cfgs) == 0 {
+				t.Fatalf("ClientConfigs: %v", cerr)
+			}
+			cfg := cfgs[0].Clone()
+			cfg.InsecureSkipVerify = false
+			cfg.VerifyConnection = nil
+			cfg.RootCAs = x509.NewCertPool()
+			cfg.ServerName = "nobody"
+			if raw, derr := net.DialTimeout("tcp", e.rig.Addr, 5*time.Second); derr == nil {
+				_ = tls.Client(raw, cfg).Handshake()
+				_ = raw.Close()
+			}
+			rec.Case("client-alert", fmt.Sprint(e.used), true, func() any { return "client rejects the server certificate and sends a TLS alert" })
+			e.judge(t, "client-alert", func() any { return "client rejects the server certificate and sends a TLS alert" }, false)
+		case "tcp-reset":
+			// the peer resets the TCP connection in the middle of the handshake
+			k := rapid.IntRange(1, 600).Draw(t, "bytesBeforeReset")
+			creds, _ := types.LoadNodeCredentials(e.w.Ctx, e.node.Store, nodeenrollment.CurrentId)
+			cfgs, cerr := nodetls.ClientConfigs(e.w.Ctx, creds)
+			if cerr != nil || len(cfgs) == 0 {
+				t.Fatalf("ClientConfigs: %v", cerr)
+			}
+			if raw, derr := net.DialTimeout("tcp", e.rig.Addr, 5*time.Second); derr == nil {
+				if tc, ok := raw.(*net.TCPConn); ok {
+					_ = tc.SetLinger(0)
+				}
+				_ = tls.Client(&cutConn{Conn: raw, budget: k}, cfgs[0]).Handshake()
+				_ = raw.Close()
+			}
+			rec.Case("tcp-reset", fmt.Sprint(k), true, func() any { return map[string]any{"client_bytes_before_reset": k} })
+			e.judge(t, "tcp-reset", func() any { return map[string]any{"client_bytes_before_reset": k} }, false)
 		case "oversized-request":
 			n := rapid.IntRange(20000, 40000).Draw(t, "bytes")
 			auth := rapid.Bool().Draw(t, "auth")
